@@ -141,7 +141,7 @@ func runC08(c *fw.Ctx) {
 	base := hx.NewStdEnv()
 	r := c.Rand("shapes")
 	maxD := c.Pick(4, 6)
-	nShapes := c.PerShard(c.Pick(480, 16000))
+	nShapes := c.PerShard(c.Pick(320, 16000))
 	nLong := c.PerShard(c.Pick(32, 640))
 	for i := 0; i < nShapes; i++ {
 		defs, used, nfn := c08Shape(r, maxD)
@@ -222,11 +222,11 @@ func runC08(c *fw.Ctx) {
 				// 10^6 iterations under a 4 MiB stack cap: dies with a fatal stack overflow if elimination is lost
 				old := debug.SetMaxStack(4 << 20)
 				done := make(chan hx.Outcome, 1)
-				// up to 10^6 iterations, sized to about 8 s from the measured per-iteration cost (never fewer than 30000:
+				// up to 10^6 iterations, sized to about 3 s (quick) / 10 s (thorough) from the measured per-iteration cost (never fewer than 30000:
 				// without elimination 30000 levels already need > 50 MiB of stack against the 4 MiB cap)
 				iters := 1000000
 				if perIter > 0 {
-					if n := int(8 * time.Second / perIter); n < iters {
+					if n := int(time.Duration(c.Pick(3, 10)) * time.Second / perIter); n < iters {
 						iters = n
 					}
 				}
